@@ -165,7 +165,7 @@ def judge(chk, sc, steps):
 
 
 def run(chk):
-    n = 100 if chk.tier == "quick" else 2500
+    n = 300 if chk.tier == "quick" else 2500
     chk.rule = ("scenarios = project x sequence of 2-4 laze invocations (wide run, then narrower --builders/--apps runs that hit the cache, "
                 "-G, -j/-k/-v, clean/-u, ninja exit codes 0/1/2/130, ninja missing) against the real CLI with a stand-in ninja that logs "
                 "argv; oracle: file, flags, targets = outputs of exactly the selected configured builds, exit status; model compared on spawn "
